@@ -1093,3 +1093,294 @@ def flat_list_cache(ctx, o) -> Optional[bool]:
                                                      f"({n_sites}) is followed by a reset of the whole parent chain, but that the set of changes is "
                                                      f"complete cannot be established here")
     return True
+
+
+# ======================================================================================================================
+# enumeration order of Task.all_children
+
+def _children_of(e, n):
+    """('plain' | 'reversed' | 'other:<text>') when e denotes the child list of n in some order, else None"""
+    for pat in (f"{n}._Task__children", f"{n}.children"):
+        if match(pat, e) or match(f"list({pat})", e) or match(f"{pat}[:]", e) or match(f"{pat}.copy()", e) or match(f"tuple({pat})", e):
+            return 'plain'
+        if match(f"reversed({pat})", e) or match(f"{pat}[::-1]", e) or match(f"list(reversed({pat}))", e) or match(f"list({pat})[::-1]", e):
+            return 'reversed'
+        if any(match(pat, x) for x in ast.walk(e)):
+            return 'other:' + src(e)[:40]
+    return None
+
+
+def check_enumeration(ctx, o, h):
+    """Task.__get_all_children lists every descendant in pre-order (a child directly followed by its subtree), siblings in list
+    order.  Understood: a recursive generator / accumulator (nested def, static or private method, or the function itself) and an
+    explicit work list (stack popped from the right, deque / list popped from the left)."""
+    from sa.flow import Expander
+    prog = ctx.prog
+    s = h.self_name
+    ex = Expander(prog, h, ctx.typer, inline=False)
+    rets = [r for r in walk_no_nested(h.node) if isinstance(r, ast.Return) and r.value is not None]
+    if len(rets) != 1:
+        o.undecided(h, h.node, 'all_children', "all_children has several returns")
+        return
+    v = rets[0].value
+    vx = ex.expand(v)
+    call = None
+    m = match("list($c)", vx) or match("[$x for $x in $c]", vx)
+    if m is not None and isinstance(m['c'], ast.Call):
+        call = m['c']
+    elif isinstance(vx, ast.Call) and not match("list($c)", vx):
+        call = vx
+    walker, node = None, None
+    if call is not None:
+        fn = call.func
+        name = fn.id if isinstance(fn, ast.Name) else (unmangle(fn.attr) if isinstance(fn, ast.Attribute) else None)
+        cands = [x for x in prog.all_funcs() if x.name == name and (x.parent is h or (x.cls == 'Task' and x.parent is None) or
+                                                                     (x.cls is None and x.module.name == 'task' and x.parent is None))]
+        if len(cands) == 1:
+            walker = cands[0]
+            ps = list(walker.params)
+            if len(call.args) == 1 and isinstance(call.args[0], ast.Name) and call.args[0].id == s and ps:
+                node = ps[-1] if len(ps) == 1 or ps[0] in ('self', 'cls') else ps[0]
+                if len(ps) == 1:
+                    node = ps[0]
+            elif not call.args and isinstance(fn, ast.Attribute) and isinstance(fn.value, ast.Name) and fn.value.id == s and walker.self_name:
+                node = walker.self_name
+    elif isinstance(v, ast.Name) or isinstance(vx, ast.Name):
+        walker, node = h, s
+    if walker is None or node is None:
+        o.undecided(h, h.node, 'all_children', f"all_children returns `{src(vx)[:60]}`: a traversal the rule cannot locate")
+        return
+    W, n = walker, node
+    names = {W.name, h.name}
+
+    def rec_on(e, ch):
+        """e is the flat list / generator of the descendants of ch"""
+        if isinstance(e, ast.Call):
+            fn = e.func
+            nm = fn.id if isinstance(fn, ast.Name) else (unmangle(fn.attr) if isinstance(fn, ast.Attribute) else None)
+            if nm in names:
+                if len(e.args) == 1 and isinstance(e.args[0], ast.Name) and e.args[0].id == ch:
+                    return True
+                if not e.args and isinstance(fn, ast.Attribute) and isinstance(fn.value, ast.Name) and fn.value.id == ch:
+                    return True
+            if nm == 'list' and len(e.args) == 1:
+                return rec_on(e.args[0], ch)
+        return bool(match(f"{ch}.all_children", e))
+    whiles = [x for x in walk_no_nested(W.node) if isinstance(x, ast.While)]
+    fors = [x for x in walk_no_nested(W.node) if isinstance(x, ast.For) and isinstance(x.target, ast.Name)]
+    wex = Expander(prog, W, ctx.typer, inline=False)
+    wcfg = cfg_of(W)
+    if whiles:
+        _worklist(ctx, o, W, n, whiles, wex, wcfg)
+        return
+    loops = [(lp, _children_of(wex.expand(lp.iter, wcfg.node_of(lp)), n)) for lp in fors]
+    loops = [(lp, k) for lp, k in loops if k is not None]
+    if len(loops) != 1:
+        o.undecided(W, W.node, 'all_children', f"{len(loops)} loops over the child list: traversal in an unrecognised form")
+        return
+    lp, kind = loops[0]
+    if kind != 'plain':
+        o.refute(W, lp, lp.iter, f"children are enumerated through `{src(lp.iter)[:40]}`, not in list order")
+        return
+    ch = lp.target.id
+    seq = []
+    for st in lp.body:
+        what = None
+        if isinstance(st, ast.Expr):
+            e = st.value
+            if isinstance(e, ast.Yield) and isinstance(e.value, ast.Name) and e.value.id == ch:
+                what = 'emit'
+            elif isinstance(e, ast.YieldFrom) and rec_on(e.value, ch):
+                what = 'rec'
+            elif isinstance(e, ast.Call) and isinstance(e.func, ast.Attribute) and len(e.args) == 1:
+                if e.func.attr == 'append' and isinstance(e.args[0], ast.Name) and e.args[0].id == ch:
+                    what = 'emit'
+                elif e.func.attr == 'extend' and rec_on(e.args[0], ch):
+                    what = 'rec'
+        elif isinstance(st, ast.AugAssign) and isinstance(st.op, ast.Add):
+            if match(f"[{ch}]", st.value):
+                what = 'emit'
+            elif rec_on(st.value, ch):
+                what = 'rec'
+        elif isinstance(st, ast.For) and isinstance(st.target, ast.Name) and rec_on(st.iter, ch) and len(st.body) == 1:
+            b = st.body[0]
+            if isinstance(b, ast.Expr) and (isinstance(b.value, ast.Yield) and isinstance(b.value.value, ast.Name) and b.value.value.id == st.target.id
+                                            or match(f"$a.append({st.target.id})", b.value)):
+                what = 'rec'
+        seq.append((what, st))
+    kinds = [k for k, _ in seq]
+    if kinds == ['emit', 'rec']:
+        o.site(W, lp, "pre-order: child, then its subtree, siblings in list order")
+    elif kinds == ['rec', 'emit']:
+        o.refute(W, lp, lp, "all_children lists a task AFTER its descendants (post-order), not each task directly followed by its descendants")
+    elif kinds == ['emit']:
+        o.refute(W, lp, lp, "all_children lists only the direct children: deeper members are missing from WBS.tasks / wbs[id]")
+    elif kinds == ['rec']:
+        o.refute(W, lp, lp, "all_children descends into the children but never lists a child itself: WBS.tasks / wbs[id] see no member")
+    elif None in kinds and any(isinstance(st, (ast.If, ast.Try, ast.While)) for k, st in seq if k is None):
+        bad = next(st for k, st in seq if k is None)
+        if isinstance(bad, ast.If) and any(isinstance(x, (ast.Yield, ast.YieldFrom)) or (isinstance(x, ast.Call) and isinstance(x.func, ast.Attribute)
+                                                                                       and x.func.attr in ('append', 'extend')) for x in ast.walk(bad)):
+            o.refute(W, bad, bad, f"all_children lists a child / its subtree only under `{src(bad.test)[:50]}`: not every member is enumerated")
+        else:
+            o.undecided(W, lp, lp, "traversal loop with statements the rule does not follow")
+    else:
+        o.undecided(W, lp, lp, "all_children is not recognisably pre-order depth first in list order")
+
+
+def _worklist(ctx, o, W, n, whiles, wex, wcfg):
+    """res = []; q = <children of n>; while q: t = q.pop..(); res.append(t); q.<push children of t>"""
+    if len(whiles) != 1:
+        o.undecided(W, W.node, 'all_children', "several while loops: traversal in an unrecognised form")
+        return
+    wl = whiles[0]
+    q = wl.test.id if isinstance(wl.test, ast.Name) else None
+    if q is None:
+        m = match("len($q) > 0", wl.test) or match("len($q) != 0", wl.test) or match("len($q)", wl.test)
+        q = m['q'].id if m is not None and isinstance(m['q'], ast.Name) else None
+    if q is None:
+        o.undecided(W, wl, wl.test, "work-list loop with an unrecognised condition")
+        return
+    from sa.flow import flow_of
+    fl = flow_of(W)
+    inits = [d for d in fl.defs_of(q) if d.kind == 'assign' and not any(x is d.stmt for x in ast.walk(wl))]
+    if len(inits) != 1:
+        o.undecided(W, wl, wl, f"work list `{q}` has {len(inits)} initialisations")
+        return
+    iv = inits[0].value
+    m = match("deque($x)", iv) or match("collections.deque($x)", iv)
+    is_deque = m is not None
+    init_kind = _children_of(m['x'] if m is not None else iv, n)
+    if init_kind is None or init_kind.startswith('other'):
+        o.undecided(W, inits[0].stmt, inits[0].stmt, f"work list starts from `{src(iv)[:40]}`, not from the child list")
+        return
+    # pop
+    t, side = None, None
+    for st in wl.body:
+        if isinstance(st, ast.Assign) and len(st.targets) == 1 and isinstance(st.targets[0], ast.Name):
+            if match(f"{q}.pop()", st.value):
+                t, side = st.targets[0].id, 'right'
+            elif match(f"{q}.popleft()", st.value) or match(f"{q}.pop(0)", st.value):
+                t, side = st.targets[0].id, 'left'
+    if t is None:
+        o.undecided(W, wl, wl, "work-list loop without a recognisable pop")
+        return
+    emits = [st for st in wl.body if isinstance(st, ast.Expr) and (match(f"$r.append({t})", st.value) or
+                                                                   (isinstance(st.value, ast.Yield) and match(t, st.value.value)))]
+    if len(emits) != 1:
+        o.undecided(W, wl, wl, "work-list loop: the popped task is not listed exactly once")
+        return
+    # push
+    push = None      # (stmt, side, order of the children as they end up: 'plain' = first child nearest to that side's end? see below)
+    for st in wl.body:
+        e = st.value if isinstance(st, ast.Expr) else None
+        if isinstance(e, ast.Call) and isinstance(e.func, ast.Attribute) and isinstance(e.func.value, ast.Name) and e.func.value.id == q and len(e.args) == 1:
+            k = _children_of(e.args[0], t)
+            if k is None:
+                continue
+            if e.func.attr == 'extend':
+                push = (st, 'right', k)                    # first child deepest, last child on top of the right end
+            elif e.func.attr == 'extendleft':
+                # extendleft inserts one by one at the left: the LAST element given ends up first
+                push = (st, 'left', 'reversed' if k == 'plain' else ('plain' if k == 'reversed' else k))
+        elif isinstance(st, ast.Assign) and len(st.targets) == 1:
+            tg = st.targets[0]
+            if isinstance(tg, ast.Subscript) and isinstance(tg.value, ast.Name) and tg.value.id == q and \
+                    (match(f"{q}[0:0]", tg) or match(f"{q}[:0]", tg)):
+                k = _children_of(st.value, t)
+                if k is not None:
+                    push = (st, 'left', k)
+            elif isinstance(tg, ast.Name) and tg.id == q and isinstance(st.value, ast.BinOp) and isinstance(st.value.op, ast.Add):
+                l, r = st.value.left, st.value.right
+                if isinstance(r, ast.Name) and r.id == q and _children_of(l, t) is not None:
+                    push = (st, 'left', _children_of(l, t))
+                elif isinstance(l, ast.Name) and l.id == q and _children_of(r, t) is not None:
+                    push = (st, 'right', _children_of(r, t))
+    if push is None:
+        if not any(_children_of(x, t) is not None for st in wl.body for x in ast.walk(st) if isinstance(x, ast.expr)):
+            o.refute(W, wl, wl, "the work-list walk never descends into the children of a listed task: only direct children are enumerated")
+        else:
+            o.undecided(W, wl, wl, "work-list loop: the children of the popped task are pushed in an unrecognised way")
+        return
+    pst, pside, porder = push
+    if porder.startswith('other'):
+        o.undecided(W, pst, pst, f"children are pushed through `{porder[6:]}`")
+        return
+    if pside != side:
+        o.refute(W, pst, pst, f"the children of a listed task are pushed at the {pside} end of `{q}` but tasks are taken from the {side} end: the walk "
+                              f"is breadth-first, a task is not directly followed by its descendants")
+        return
+    # order in which siblings come off: left-pop takes the sequence as it lies (porder as laid out from the left);
+    # right-pop takes it from the end, so the children must lie reversed
+    comes_off = porder if side == 'left' else ('reversed' if porder == 'plain' else 'plain')
+    init_off = init_kind if side == 'left' else ('reversed' if init_kind == 'plain' else 'plain')
+    if comes_off != 'plain':
+        o.refute(W, pst, pst, f"`{src(pst)[:60]}` makes the children of a task come off the work list last-to-first: siblings below the first "
+                              f"level are listed in reversed order, not in list order")
+        return
+    if init_off != 'plain':
+        o.refute(W, inits[0].stmt, inits[0].stmt, f"`{src(inits[0].stmt)[:60]}`: the top-level children come off the work list last-to-first, not in "
+                                                  f"list order")
+        return
+    o.site(W, wl, "pre-order by work list: a task is listed when taken, its children are put in front in list order")
+
+
+# ======================================================================================================================
+# the child list object shared between a task and its facades (own copy of taskrules.shared_list that reads through aliases:
+# `shared = self._list; shared[:] = ..; self.__setter(shared)` is the same as writing self._list each time)
+
+def shared_list(ctx, o):
+    from sa.flow import Expander
+    prog = ctx.prog
+    g = prog.func('task.Task.children')
+    gx = Expander(prog, g, ctx.typer, inline=False)
+    pat = "_ChildrenList(self, self._Task__children, self._Task__set_children)"
+    if any(isinstance(n, ast.Call) and (match(pat, n) or match(pat, gx.expand(n))) for n in ast.walk(g.node)):
+        o.site(g, g.node, "children getter hands out the raw list object and the publish callback")
+    else:
+        o.refute(g, g.node, 'children getter', "the children facade is not built on the task's own list object (a copy would never reach the task)")
+    cl = prog.cls('_ChildrenList')
+    for m in cl.methods.values():
+        if m.name == '__init__':
+            continue
+        ex = Expander(prog, m, ctx.typer, inline=False)
+        for st, tgt, val in facts.attr_stores(m, '_list'):
+            if match("self._list", tgt):
+                o.refute(m, st, st, f"{m.name} rebinds the facade's list (`{src(st)[:50]}`): the task and every children list handed out earlier keep "
+                                    f"the old object and go stale; the shared list must be changed in place")
+        for c in facts.calls_named(m, '__setter'):
+            a = c.args[0] if len(c.args) == 1 else None
+            if match("self._ChildrenList__setter(self._list)", c) or (a is not None and match("self._ChildrenList__setter", c.func) and
+                                                                     match("self._list", ex.expand(a))):
+                o.site(m, c, f"{m.name} publishes the shared list itself")
+            else:
+                o.refute(m, c, c, f"{m.name} hands `{src(a) if a is not None else '?'}` to the task instead of the shared list object: lists handed "
+                                  f"out earlier go stale")
+    t = prog.cls('Task')
+    sf = t.setters.get('children')
+    if sf is not None:
+        for st, tgt, val in facts.attr_stores(sf, '_Task__children'):
+            if match("self._Task__children", tgt):
+                o.refute(sf, st, st, "the children setter rebinds the task's child list: facades handed out earlier go stale")
+    sc = prog.funcs.get('task.Task.__set_children')
+    if sc is not None:
+        sts = [x for x in facts.attr_stores(sc, '_Task__children')]
+        p = [x for x in sc.params if x != sc.self_name]
+        if all(isinstance(v, ast.Name) and p and v.id == p[0] for _, _, v in sts) or not sts:
+            o.site(sc, sc.node, "publish callback stores the object it is given")
+        else:
+            o.refute(sc, sc.node, '__set_children', "the publish callback stores a different list than the one it is given")
+
+
+def inplace_replacements(prog, typer, m):
+    """[(stmt, value)] for `self._list[:] = v`, also through an alias of self._list"""
+    from sa.flow import Expander
+    ex = Expander(prog, m, typer, inline=False)
+    out = []
+    for n in walk_no_nested(m.node):
+        if isinstance(n, ast.Assign) and len(n.targets) == 1:
+            t = n.targets[0]
+            if isinstance(t, ast.Subscript) and isinstance(t.slice, ast.Slice) and t.slice.lower is None and t.slice.upper is None and \
+                    t.slice.step is None and (match("self._list", t.value) or match("self._list", ex.expand(t.value))):
+                out.append((n, n.value))
+    return out
